@@ -137,8 +137,7 @@ void shim_case(Rng& rng, int P, std::vector<std::size_t> const& calls, int integ
         }
         logs[rank].final_text = text.str();
     });
-    std::uint64_t misuse = vf_mpi_world_misuse();
-    vf_mpi_world_misuse() = 0;
+    std::uint64_t misuse = vf_mpi_take_misuse();
     static const char* names[] = {"mpi_plain", "mpi_vegas", "mpi_multi_channel"};
     J info;
     info.s("T", tname<T>::get()).s("integrator", names[integrator]).u("world", P).uv("calls", calls).u("dims", dims).u("usage_per_number", k);
